@@ -209,6 +209,9 @@ func (sc *Scratch) RunCLI(w *CLIWorld) (*CLIOutcome, error) {
 				// make op paths sandbox-relative for comparison and replay files
 				for i := range out.Rec.Ops {
 					out.Rec.Ops[i].Path = relTo(root, out.Rec.Ops[i].Path)
+					if out.Rec.Ops[i].Real != "" {
+						out.Rec.Ops[i].Real = relTo(root, out.Rec.Ops[i].Real)
+					}
 					if out.Rec.Ops[i].Path2 != "" {
 						out.Rec.Ops[i].Path2 = relTo(root, out.Rec.Ops[i].Path2)
 					}
